@@ -1,7 +1,7 @@
 (* C14Theorems.v — the property theorems of C14 and nothing else.  Each is closed by
    `exact <lemma>` and followed by Print Assumptions (audited by ./check on every run). *)
 From V.lib Require Import Base.
-From V.c14 Require Import C14Spec C14Model C14WordProofs C14ScanProofs C14ConvProofs.
+From V.c14 Require Import C14Spec C14Model C14WordProofs C14ScanProofs C14ConvProofs C14WalkProofs.
 
 (* the word bit-trick of hasZeroByte is exactly "some byte of the word is zero", for every 8-byte
    word, whichever byte order the load uses *)
@@ -77,4 +77,47 @@ Example C14_conv_ex :
   to_nalu_sample (stream us) = Ok (sample (map snd us)) /\
   to_nalu_sample (stream us4) = Ok (sample (map snd us4)) /\
   min_sc_len (expected_scs 0 us) = 3%Z /\ min_sc_len (expected_scs 0 us4) = 4%Z.
+Proof. vm_compute. repeat split; reflexivity. Qed.
+
+(* AVC helpers that walk a sample: on `sample ns` (units non-empty, each shorter than 2^32) they return
+   the obvious functions of the unit list ns *)
+Theorem C14_helpers_avc_sample : forall ns : list (list N), walkable ns = true ->
+  (ns <> [] -> get_nalus_from_sample (sample ns) = Ok ns) /\
+  avc_find_nalu_types (sample ns) = Ok (map (utype avc_type) ns) /\
+  avc_find_nalu_types_up_to_video (sample ns) = Ok (types_upto avc_type avc_is_video ns) /\
+  (forall want, avc_contains_nalu_type (sample ns) want = Ok (has_type avc_type want ns)) /\
+  avc_is_idr_sample (sample ns) = Ok (has_type avc_type 5 ns) /\
+  avc_has_parameter_sets (sample ns) =
+    Ok (existsb (fun t => N.eqb t 7) (types_upto avc_type avc_is_video ns)
+        && existsb (fun t => N.eqb t 8) (types_upto avc_type avc_is_video ns)) /\
+  avc_get_parameter_sets (sample ns) =
+    Ok ([], of_type avc_type 7 (before_video avc_type avc_is_video ns),
+            of_type avc_type 8 (before_video avc_type avc_is_video ns)).
+Proof. exact helpers_avc_sample. Qed.
+Print Assumptions C14_helpers_avc_sample.
+
+Theorem C14_helpers_hevc_sample : forall ns : list (list N), walkable ns = true ->
+  hevc_find_nalu_types (sample ns) = Ok (map (utype hevc_type) ns) /\
+  hevc_find_nalu_types_up_to_video (sample ns) = Ok (types_upto hevc_type hevc_is_video ns) /\
+  (forall want, hevc_contains_nalu_type (sample ns) want = Ok (has_type hevc_type want ns)) /\
+  hevc_is_rap_sample (sample ns) = Ok (existsb (in_range 16 23) (map (utype hevc_type) ns)) /\
+  hevc_is_idr_sample (sample ns) = Ok (existsb (in_range 19 20) (map (utype hevc_type) ns)) /\
+  hevc_has_parameter_sets (sample ns) =
+    Ok (existsb (fun t => N.eqb t 32) (types_upto hevc_type hevc_is_video ns)
+        && existsb (fun t => N.eqb t 33) (types_upto hevc_type hevc_is_video ns)
+        && existsb (fun t => N.eqb t 34) (types_upto hevc_type hevc_is_video ns)) /\
+  hevc_get_parameter_sets (sample ns) =
+    Ok (of_type hevc_type 32 (before_video hevc_type hevc_is_video ns),
+        of_type hevc_type 33 (before_video hevc_type hevc_is_video ns),
+        of_type hevc_type 34 (before_video hevc_type hevc_is_video ns)).
+Proof. exact helpers_hevc_sample. Qed.
+Print Assumptions C14_helpers_hevc_sample.
+
+Example C14_helpers_ex :
+  let ns := [[9;16]; [103;66;0]; [104;206]; [101;136;132]; [104;1]]%N in
+  walkable ns = true /\
+  avc_find_nalu_types (sample ns) = Ok [9;7;8;5;8]%N /\
+  avc_find_nalu_types_up_to_video (sample ns) = Ok [9;7;8;5]%N /\
+  avc_get_parameter_sets (sample ns) = Ok ([], [[103;66;0]], [[104;206]])%N /\
+  hevc_is_rap_sample (sample [[64;1;12]; [38;1;175]]%N) = Ok true.
 Proof. vm_compute. repeat split; reflexivity. Qed.
